@@ -356,6 +356,10 @@ def judge1(ctx, script, S, steps_meta, observed, names, ans):
         ctx.agree("options")
 
 
+# names no option has: ordinary ones and ones that look internal (leading underscores, other letter case)
+UNKNOWN = ["nosuch", "_timeout", "__proxy", "_", "Timeout", "timeout_", "__faults"]
+
+
 def gen_steps(rng, cnames, tnames, nclients):
     r = rng.random()
     c = rng.randrange(max(1, nclients))
@@ -371,6 +375,7 @@ def gen_steps(rng, cnames, tnames, nclients):
     valid, invalid = value_pool(name)
     q = rng.random()
     if name == "nosuch":
+        name = rng.choice(UNKNOWN)
         v = 1
     elif q < 0.55 and valid:
         v = rng.choice(valid)
@@ -390,7 +395,8 @@ def run(ctx):
     cnames = [n for n in cnames]
     # exhaustive short histories over representative options
     reps = [("faults", True), ("faults", "yes"), ("faults", None), ("timeout", 5), ("timeout", "5"),
-            ("timeout", None), ("service", "S1"), ("headers", {"a": "b"}), ("nosuch", 1), ("plugins", ())]
+            ("timeout", None), ("service", "S1"), ("headers", {"a": "b"}), ("nosuch", 1), ("plugins", ()), ("_timeout", 1),
+            ("__proxy", {})]
     atoms = []
     for name, v in reps:
         for kind in ("set", "set_options", "tset"):
@@ -439,8 +445,59 @@ def run(ctx):
         S, meta, obs, names = run_history(ctx, script)
         judge(ctx, script, S, meta, obs, names)
     flush(ctx)
+    transport_follows_options(ctx)
     ctx.sample({"script": [{"k": "client"}, {"k": "clone", "c": 0}, {"k": "tset", "c": 1, "name": "timeout", "value": 5},
                            {"k": "set", "c": 0, "name": "faults", "value": "yes"}]})
+
+
+def transport_follows_options(ctx):
+    """'transport options set on the client are the ones its transport uses': the proxy option, set through the
+    client, the options object or the transport's own options, decides where each request goes - also when it is
+    changed after requests were already sent, and for a transport that replaced the first one."""
+    import suds.transport.http
+    from harness.props import c15
+    rng = ctx.rng
+    origin, proxy_a, proxy_b = c15.Server(), c15.Server(), c15.Server()
+    try:
+        for srv in (origin, proxy_a, proxy_b):
+            srv.httpd.plan = lambda h: {"status": 200, "body": b""}
+        w = wsdlkit.wsdl_doc('<xsd:element name="f"><xsd:complexType><xsd:sequence/></xsd:complexType></xsd:element>',
+                             "f", None, location=origin.url("/svc"))
+        for _ in range(ctx.pick(6, 60)):
+            c = wsdlkit.client(w, transport=suds.transport.http.HttpTransport())
+            hist = []
+            for step in range(rng.randint(2, 5)):
+                where = rng.choice(["origin", "a", "b"])
+                value = {} if where == "origin" else {"http": "127.0.0.1:%d" % (proxy_a if where == "a" else proxy_b).port}
+                via = rng.choice(["set_options", "options", "transport.options", "new-transport"])
+                if via == "set_options":
+                    c.set_options(proxy=value)
+                elif via == "options":
+                    c.options.proxy = value
+                elif via == "transport.options":
+                    c.options.transport.options.proxy = value
+                else:
+                    # a replacement transport brings its own option values; what is set on the client from then on
+                    # is what the new transport uses
+                    c.set_options(transport=suds.transport.http.HttpTransport())
+                    c.set_options(proxy=value)
+                hist.append([via, where])
+                for srv in (origin, proxy_a, proxy_b):
+                    del srv.httpd.seen[:]
+                ctx.case(("proxy-follow", common.canon(hist)), True)
+                try:
+                    c.service.f()
+                except Exception as e:
+                    ctx.fail("a request under the configured proxy option failed", {"history": hist}, repr(e), "a request")
+                    break
+                got = "".join(n for n, srv in (("origin", origin), ("a", proxy_a), ("b", proxy_b)) if srv.httpd.seen)
+                if got != where:
+                    ctx.fail("the transport does not use the proxy option currently set on the client", {"history": hist},
+                             got, where)
+                    break
+    finally:
+        for srv in (origin, proxy_a, proxy_b):
+            srv.close()
 
 
 def widen(ctx):
